@@ -116,6 +116,10 @@ impl Check for C17 {
         // server-side SYN-ACK nonces sent to raw peers
         let mut synack_to: HashMap<SocketAddr, u32> = HashMap::new();
         let mut admitted: HashSet<SocketAddr> = HashSet::new();
+        // silenced clients (Kill): the time of the server step that last read a datagram from each address
+        let mut killed: HashSet<SocketAddr> = HashSet::new();
+        let mut last_rx_step: HashMap<SocketAddr, u64> = HashMap::new();
+        let mut seen_delivered = 0usize;
 
         macro_rules! step_all {
             () => {{
@@ -123,6 +127,13 @@ impl Check for C17 {
                 // established = reported by Connect, not ended, and not already closing (RemoteClient::is_active())
                 let active_before = m.connected.iter().filter(|a| w.server_client_active(a)).count();
                 w.step_server();
+                while seen_delivered < w.delivered.len() {
+                    let d = &w.delivered[seen_delivered];
+                    seen_delivered += 1;
+                    if d.to == w.server_addr {
+                        last_rx_step.insert(d.from, w.now_us);
+                    }
+                }
                 // update the model from new events
                 while m.seen_events < w.server_events.len() {
                     let (_, _, e) = &w.server_events[m.seen_events];
@@ -187,6 +198,21 @@ impl Check for C17 {
                         "oracle:c17:connection_forgotten_without_terminal_event",
                         format!("at t={} us Server::client({a}) returns nothing although Connect({a}) was reported and no terminal event or drop followed: the connection is no longer counted against the limits", w.now_us),
                     );
+                }
+                // a connection ends by timeout as well: an established connection whose peer has been silent for
+                // active_timeout_ms is reported (and its slot returned) by the first step after that - whatever
+                // else the server is busy with; until it is, the dead peer counts against both limits
+                for a in killed.iter() {
+                    if m.connected.contains(a) && w.server_client_active(a) {
+                        if let Some(t_rx) = last_rx_step.get(a) {
+                            if w.now_us >= *t_rx + c.timeout_ms as u64 * 1000 + 2_000 {
+                                return CaseResult::fail(
+                                    "oracle:c17:silent_connection_keeps_its_slot",
+                                    format!("at t={} us the connection of {a} is still established (no terminal event, is_active) although the last datagram from that address was read by the server step at t={} us and active_timeout_ms is {}: a connection that ended by timeout still occupies its slot against max_active_connections {} / max_total_connections {}", w.now_us, t_rx, c.timeout_ms, c.max_active, c.max_total),
+                                );
+                            }
+                        }
+                    }
                 }
                 let tracked = all_addrs.iter().filter(|a| w.server_has_client(a) && !m.ended.contains(*a)).count();
                 if tracked > c.max_total as usize {
@@ -347,6 +373,7 @@ impl Check for C17 {
                     if !real.is_empty() {
                         let ci = real[*k as usize % real.len()];
                         w.links[ci].blackout_until_us = [u64::MAX, u64::MAX];
+                        killed.insert(w.clients[ci].addr);
                         classes.push("client_silenced");
                     }
                 }
@@ -367,6 +394,7 @@ impl Check for C17 {
             }
             for &ci in real.iter() {
                 w.links[ci].blackout_until_us = [u64::MAX, u64::MAX];
+                killed.insert(w.clients[ci].addr);
             }
             // raw peers' pending entries may have been re-created by in-flight SYNs: wait out the handshake budget
             // (a handshake whose last frame was already in the server's socket completes in the first of these steps:
